@@ -21,15 +21,14 @@ def run(pid, harnesses, outdir):
     if not os.path.isfile(manifest):
         # mutation self-tests run on a source-only copy of the repository: Kani needs the whole workspace
         return [dict(harness=h, status="undecided", reason="no Cargo workspace at VERIF_REPO", checks=0, checks_ok=0, cmd="") for h in harnesses]
-    for h in harnesses:
+    def one(h):
         cmd = ["cargo", "kani", "-p", "whirlpool", "--harness", h, "--target-dir", target]
         t0 = time.time()
         try:
             p = subprocess.run(cmd, cwd=REPO, env=env, capture_output=True, text=True, timeout=3000)
             out = p.stdout + "\n" + p.stderr
         except subprocess.TimeoutExpired:
-            results.append(dict(harness=h, status="undecided", reason="kani timeout", checks=0, checks_ok=0, cmd=" ".join(cmd)))
-            continue
+            return dict(harness=h, status="undecided", reason="kani timeout", checks=0, checks_ok=0, cmd=" ".join(cmd))
         open(os.path.join(outdir, h + ".log"), "w").write(out)
         wall = time.time() - t0
         r = dict(harness=h, cmd="(cd /repo && CARGO_NET_OFFLINE=true " + " ".join(cmd) + ")", wall_s=round(wall, 1), bounded=h in BOUNDED,
@@ -50,7 +49,15 @@ def run(pid, harnesses, outdir):
         else:
             errs = [l for l in out.split("\n") if l.startswith("error")]
             r.update(status="undecided", reason="kani did not produce a verdict (build error or tool failure): " + "; ".join(errs[:3]), checks=0, checks_ok=0)
-        results.append(r)
+        return r
+    # the first harness runs alone (it builds the crate under cargo's lock); the others then run concurrently on the warm target directory
+    import concurrent.futures as cf
+    hs = list(harnesses)
+    if hs:
+        results.append(one(hs[0]))
+    if len(hs) > 1:
+        with cf.ThreadPoolExecutor(max_workers=min(6, len(hs) - 1)) as ex:
+            results += list(ex.map(one, hs[1:]))
     return results
 
 
